@@ -276,7 +276,7 @@ func (r *runner) exec(op Op) (o obs) {
 			r.repo = repo
 			r.subs = []<-chan *wire.BlockHeader{r.repo.GetNewHeadersAvailableChannel()}
 		}
-		return obs{kind: "load", ok: err == nil}
+		return obs{kind: "load", ok: err == nil, pick: r.tipID()}
 	case "sub":
 		r.subs = append(r.subs, r.repo.GetNewHeadersAvailableChannel())
 		return obs{kind: "unit"}
@@ -333,7 +333,7 @@ func coqCase(c *Case) (string, map[string]int) {
 		case "save":
 			ops = append(ops, "OSave")
 		case "load":
-			ops = append(ops, "OLoad "+coqfmt.Z(int64(op.D)))
+			ops = append(ops, fmt.Sprintf("OLoad %s %d", coqfmt.Z(int64(op.D)), o.pick))
 		case "sub":
 			continue
 		case "observe":
